@@ -101,10 +101,18 @@ def run(tier):
     # metamorphic oracle
     for mode in ("interp", "jit"):
         probs = [problem(r, int(r.choice([2, 2, 3]))) for _ in range(14 if q else 120)]
+        for _ in range(6 if q else 40):
+            pp = problem(r, 3)
+            if pp["meta"]["origin_kind"] == "dyadic":
+                oo = [float(x) for x in r.permutation([-8.0, 4.0, 16.0])]
+                pp["origin"] = tuple(oo)
+                pp["meta"]["origin"] = tuple(oo)
+            pp["force_free"] = True
+            probs.append(pp)
         if mode == "jit":
             probs.insert(0, corpus_case())   # recorded reproducer of known finding C06-ray-gradient-ties
         reqs = []
-        for p in probs:
+        for k_req, p in enumerate(probs):
             nd = len(p["gridsize"])
             o = p["origin"]
             many = bool(r.integers(0, 2)) and not p.get("corpus")
@@ -114,14 +122,16 @@ def run(tier):
             base_src = [list(p["src"])] + (extra if many else [])
             p["base_src"] = base_src
             sh_src = [[s[a] + o[a] for a in range(nd)] for s in base_src]
-            hg = bool(r.integers(0, 2)) and not p.get("corpus")
+            hg = bool(r.integers(0, 2)) and not p.get("corpus") and not p.get("force_free")
             kw = {"honor_grid": hg, "max_step": 400}
             for org, srcs, pts, rps in ((o, sh_src, [[x[a] + o[a] for a in range(nd)] for x in p["points"]],
                                          [[x[a] + o[a] for a in range(nd)] for x in p["ray_points"]]),
                                         (None, base_src, p["points"], p["ray_points"]),
                                         (tuple([0.0] * nd), base_src, p["points"], p["ray_points"])):
+                as_arr = (k_req % 2 == 0)
                 reqs.append({"op": "api_solve", "grid": p["grid"], "gridsize": p["gridsize"], "origin": org,
-                             "sources": srcs if many else srcs[0], "nsweep": 2, "grad": True, "points": pts,
+                             "sources": (np.array(srcs if many else srcs[0], dtype=np.float64) if as_arr
+                                         else (srcs if many else srcs[0])), "nsweep": 2, "grad": True, "points": pts,
                              "ray_points": rps, "ray_kw": kw, "timeout": 60.0})
         res = C.run_impl(reqs, mode, timeout=3000)
         for k, p in enumerate(probs):
@@ -171,7 +181,7 @@ def run(tier):
             for ra, rb in zip(a["rays"], b["rays"]):
                 if isinstance(ra, str) or isinstance(rb, str):
                     if isinstance(ra, str) != isinstance(rb, str) or (isinstance(ra, str) and ra != rb):
-                        if "maxsteps" not in str(ra) + str(rb):
+                        if rep or "maxsteps" not in str(ra) + str(rb):
                             ck.violation("ray outcome depends on the origin", dict(pl, rays=[str(ra)[:40], str(rb)[:40]]))
                     continue
                 for xa, xb in zip(ra, rb):
